@@ -3,7 +3,7 @@ The shared predicate / pattern / record language (mirrors
 lean/BoboVerif/Drivers/Decider.lean): builds REAL bobocep objects from the
 same text the Lean driver parses.
 
-predicates: any | eq:k | ne:k | lt:k | gt:k | kind:<s|c|a> | sizelt:n | gtmax | grplt:<g>:<n> | raiseif:k:<pred>
+predicates: any | eq:k | ne:k | lt:k | gt:k | kind:<s|c|a> | sizelt:n | gtmax | grplt:<g>:<n> | raiseif:k:<pred> | simple:<pred>
 pattern spec (dict): {'name', 'singleton', 'pre': [pred], 'halt': [pred], 'blocks': [(group, 'slno', [pred])]}
 record  = id|phen|pat|idx|hist   hist = g=e.e;g=e   event = id:ts:kind:data   (`~` = empty group name)
 """
@@ -46,6 +46,9 @@ def mk_pred_fn(toks):
         g = '' if toks[1] == '~' else toks[1]
         n = int(toks[2])
         return lambda e, h: len(h.group(g)) < n
+    if op == 'simple' and len(toks) >= 2:
+        inner_s = mk_pred_fn(toks[1:])
+        return lambda e, h: inner_s(e, h) if kind_of(e) == 's' else False
     if op == 'raiseif' and len(toks) >= 3:
         k = int(toks[1])
         inner = mk_pred_fn(toks[2:])
